@@ -24,4 +24,7 @@ def run(prog, tier):
     CR.frame_reader_rule(prog, res, 'codec-agree/frame-read')
     CR.data_offset_rule(prog, res, 'codec-agree/data-offset')
     CR.copy_completeness_rule(prog, res)
+    # strings are stored trimmed: the trimmer must empty a cell made only of padding
+    import p_c11
+    p_c11.check_trimmer(prog, res, 'string-trim')
     return res
